@@ -325,8 +325,10 @@ class MessagePackRpc(MessagePackDocument):
 
         elif body_class:
             if ctx.in_body_doc is None:
-                # [type, id, method, nil]: every argument is absent
-                ctx.in_object = [None] * len(body_class._type_info)
+                # [type, id, method, nil]: every argument is absent. (the
+                # in-message of a bare method need not have a _type_info)
+                ctx.in_object = [None] * len(
+                                        getattr(body_class, '_type_info', ()))
 
             else:
                 ctx.in_object = self._doc_to_object(ctx,
